@@ -44,7 +44,7 @@ type BackendScript struct {
 	Err        *RPCError       // terminal error (nil = OK)
 	ErrAfter   int             // messages sent before the error (capped to len(Msgs))
 	TrailersOnly bool          // gRPC / gRPC-Web: error with no messages goes into the headers
-	CompressEnd bool           // Connect stream: compress the end-of-stream frame
+	CompressEnd bool           // Connect stream / gRPC-Web: compress the end-of-stream (trailer) frame; Connect unary: compress the error body
 	Headers    http.Header
 	Trailers   http.Header
 	DeclareTrailers bool       // announce trailers in the Trailer header instead of using http.TrailerPrefix
@@ -377,6 +377,10 @@ func (b *Backend) validateEnveloped(ct string) {
 				o.bad("request frame %d flagged compressed but no %s declared", i, encH)
 			} else if d, err := decompressWith(o.Comp, payload); err != nil {
 				o.bad("request frame %d flagged compressed does not decompress with %q: %v", i, o.Comp, err)
+				// no server can decode this frame
+				o.Msgs = append(o.Msgs, nil)
+				o.RawMsgs = append(o.RawMsgs, payload)
+				continue
 			} else {
 				payload = d
 			}
@@ -818,10 +822,14 @@ func (b *Backend) respond(w http.ResponseWriter, r *http.Request) {
 			}
 		}
 		fl := byte(0x80)
+		tdata := tb.Bytes()
+		if comp != "" && s.CompressEnd {
+			tdata, fl = compressWith(comp, tdata), 0x81
+		}
 		if s.RawFlagsEnd != nil {
 			fl = *s.RawFlagsEnd
 		}
-		sw.write(appendFrame(nil, fl, tb.Bytes()))
+		sw.write(appendFrame(nil, fl, tdata))
 	case "connect-stream":
 		h.Set("Content-Type", "application/connect+"+codec)
 		if comp != "" {
